@@ -32,6 +32,57 @@ fn main() {
         usage();
     }
     let cmd = args[0].as_str();
+    if cmd == "dbg-gencfg" {
+        // developer aid: acceptance rate of the grammar generator
+        use proptest::prelude::*;
+        use proptest::strategy::ValueTree;
+        let profile = if args.get(1).map(|s| s == "boundary").unwrap_or(false) { gen::cfg::Profile::Boundary } else { gen::cfg::Profile::Plausible };
+        let n: u64 = args.get(2).and_then(|s| s.parse().ok()).unwrap_or(1000);
+        let show: u64 = args.get(3).and_then(|s| s.parse().ok()).unwrap_or(0);
+        let strat = prop::collection::vec(any::<u16>(), 0..400);
+        let mut reasons: std::collections::BTreeMap<String, (u64, String)> = Default::default();
+        let mut ok = 0;
+        let mut feats: std::collections::BTreeMap<&'static str, u64> = Default::default();
+        engine::install_panic_hook(true);
+        for i in 0..n {
+            let mut runner = engine::runner_for("dbg", 0, i);
+            let tape = strat.new_tree(&mut runner).unwrap().current();
+            let b = gen::cfg::build(&tape, profile, profile == gen::cfg::Profile::Boundary);
+            if i < show {
+                println!("---- #{i}\n{}", b.text);
+            }
+            let files: rustc_hash::FxHashMap<String, String> = b.files.iter().cloned().collect();
+            let text = b.text.clone();
+            let r = std::panic::catch_unwind(move || kanata_parser::cfg::new_from_str(&text, files).map(|_| ()));
+            match r {
+                Ok(Ok(())) => {
+                    ok += 1;
+                    for f in &b.info.features {
+                        *feats.entry(f).or_default() += 1;
+                    }
+                }
+                Ok(Err(e)) => {
+                    let msg = format!("{e:?}");
+                    let key: String = msg.lines().find(|l| l.contains("help:")).unwrap_or("?").chars().take(110).collect();
+                    reasons.entry(key).or_insert((0, b.text.clone())).0 += 1;
+                }
+                Err(_) => {
+                    reasons.entry("PANIC".into()).or_insert((0, b.text.clone())).0 += 1;
+                }
+            }
+        }
+        println!("accepted {ok}/{n}");
+        let mut rs: Vec<_> = reasons.into_iter().collect();
+        rs.sort_by_key(|(_, (c, _))| std::cmp::Reverse(*c));
+        for (k, (c, ex)) in rs.iter().take(25) {
+            println!("{c:6} {k}");
+            if show > 0 {
+                println!("{ex}");
+            }
+        }
+        println!("{feats:?}");
+        return;
+    }
     if cmd == "list" {
         for p in props::all() {
             println!("{}", p.id());
